@@ -9,6 +9,7 @@ from __future__ import annotations
 
 import itertools
 import json
+import os
 
 import numpy as np
 
@@ -103,6 +104,11 @@ def gen_base(rng, i):
                  "oscale": [3.0] * n_obj if tkind in ("o", "all") else None, "cscale": [0.5] * n_con if (tkind in ("c", "all") and n_con) else None}
         if all(v is None for v in tspec.values()):
             tspec = None
+    if method != "evaluator_step" and rng.random() < 0.4:
+        # the back-end's output is redirected (an option that has nothing to do with failures): the outcome of every run below
+        # is what it is without it
+        spec["optimizer"] = dict(spec["optimizer"], stdout=ens.scratch_file("optimizer_output"))
+        spec["_redirected"] = True
     return method, spec, tspec
 
 
@@ -309,6 +315,8 @@ def run_case(case, obs):
         return
     Ncalls = len(base.ev.calls)
     obs.feature("method." + method)
+    if spec.get("_redirected"):
+        obs.count("cases_with_redirected_optimizer_output")
     if spec.get("merge"):
         obs.count("merged_gradient_cases")
     if spec.get("filters"):
